@@ -9,6 +9,7 @@ Static clauses:
           is a place where an unresolved symbol reaches lowering); binding occurrences (`name` of a definition) are tabled.
   FACADE  Workspace::lower reaches lowering::lower only on the `errors.is_empty()` edge and only with names of existing
           transactions.
+  S-PROPS     the fields put in scope for `operand.field` come from Type::properties(), the accessor the lowering indexes with
   S-TYPEGATE  a validator (returns Result<(), _>) that asks for `target_type()` has no path to Ok(..) under the answer None
 Not decided: the semantic equivalence of an analyzer condition with a lowering condition is judged by reading (recorded in
 the row); the rule guarantees both ends of the row still exist and are connected.
